@@ -127,6 +127,9 @@ fixed("C08","7967774","pin:parameter_named_like_a_macro","'#define x 5', '#defin
 fixed("C08","cc21c89","pin:body_names_a_later_macro","'#define FIRST SECOND', '#define SECOND 9': FIRST expanded to SECOND and stopped (only macros named in the original text were applied)")
 fixed("C08","b0f5f26","pin:tab_after_define","'#define<TAB>SEVEN<TAB>7' was refused (directive and operand were split at a blank only); same for #ifdef #ifndef #undef (also C11)")
 fixed("C07","56dc566","C07:numeric_condition_values","'#if X' with X = 2 was false and '#if X == 3' true: only the literal 1 counted as true and == compared truth values")
+fixed("C01","c77e1a7","pin:identifier_starting_with_a_keyword","'return_value = 3;' parsed as 'return _value = 3;' and 'elsewhere = 3;' after an if as its else part: keywords were matched as prefixes of identifiers")
+fixed("C11","c77e1a7","pin:do_without_a_blank","'do{' without a blank after the keyword was a syntax error")
+fixed("C11","61bcb00","C11:blank_before_include","white space or a comment in front of #include made the directive fail ('Expected < or \" in #include filename spec'); covered by the multi-file kind of C11")
 fixed("C09","0bbcb57","pin:macro_parameter_in_character_constant","'#define CHK(x) ((x) == 'x')': the parameter was substituted inside the character constant of the body")
 
 # ---------------- recorded, not repaired (each has a pinned witness in harness/src/pins.rs and a
